@@ -11,7 +11,7 @@ import (
 
 //verif:include ../dnsdata/rdb/zz_verif_model.go
 //verif:include ../db/zz_verif_world.go
-//verif:harness H13_robust property=C13 native=no quick=world=0,layout=2,edns=0,cache=0;world=0,layout=1,edns=1,cache=0;world=1,layout=2,edns=0,cache=0;world=2,layout=0,edns=0,cache=0;world=3,layout=2,edns=1,cache=0;world=0,layout=2,edns=0,cache=1 thorough=world=1,layout=1,edns=1,cache=0;world=0,layout=0,edns=2,cache=0;world=0,layout=1,edns=4,cache=0;world=1,layout=2,edns=3,cache=0;world=2,layout=1,edns=2,cache=0;world=2,layout=2,edns=1,cache=0;world=3,layout=0,edns=4,cache=0;world=0,layout=0,edns=1,cache=1
+//verif:harness H13_robust property=C13 native=no quick=world=0,layout=2,edns=0,cache=0;world=0,layout=1,edns=1,cache=0;world=1,layout=2,edns=0,cache=0;world=2,layout=0,edns=0,cache=0;world=3,layout=2,edns=1,cache=0;world=0,layout=2,edns=0,cache=1 thorough=world=1,layout=1,edns=1,cache=0;world=1,layout=2,edns=3,cache=0;world=2,layout=2,edns=1,cache=0;world=0,layout=1,edns=0,cache=1
 
 // verifWellFormed: what C13 demands of a written message.
 func verifWellFormed(q, resp *dns.Msg, tcp bool, tag string) {
